@@ -667,7 +667,7 @@ def cli_oracle(case, rec=None):
 
 def force_def_flags(node):
     if isinstance(node, list):
-        if node and node[0] == 'def' and node[2] is None:
+        if len(node) > 3 and node[0] == 'def' and node[2] is None:      # (a word list such as ['def', 'x'] is not a #DEF node)
             node = node[:2] + [0] + node[3:]
         return [force_def_flags(x) for x in node]
     return node
